@@ -204,7 +204,19 @@ func c11RealBinary(r *ev.Result, base string) {
 		c11LogDir = ""
 	}
 	c11UnusableLog(r, base)
+	/* -log given twice: whatever the program makes of the first, the file
+	named last is a transcript like any other. */
+	{
+		dir, _ := os.MkdirTemp(base, "log3-")
+		defer os.RemoveAll(dir)
+		c11LogDir, c11ExtraLog = dir, filepath.Join(dir, "first.json")
+		c11RealSession(r, base, "ctrl-d", 1)
+		c11LogDir, c11ExtraLog = "", ""
+	}
 }
+
+// c11ExtraLog, if set, is given as a first -log before the one that is judged.
+var c11ExtraLog string
 
 // c11UnusableLog: -log names a file that cannot be opened (its directory is
 // missing, a path component is a regular file, the path is a directory).  The
@@ -282,7 +294,12 @@ func c11RealSession(r *ev.Result, base, endBy string, nth int) {
 	if nth > 1 {
 		endBy = fmt.Sprintf("%s (run %d on one log file)", endBy, nth)
 	}
-	p, addr, err := startReal(dir, "-listen-address", "127.0.0.1:0", "-tls-certificate-cache", filepath.Join(dir, "c.txtar"), "-log", logf)
+	largs := []string{"-listen-address", "127.0.0.1:0", "-tls-certificate-cache", filepath.Join(dir, "c.txtar")}
+	if "" != c11ExtraLog {
+		largs = append(largs, "-log", c11ExtraLog)
+		endBy += " (-log given twice)"
+	}
+	p, addr, err := startReal(dir, append(largs, "-log", logf)...)
 	if nil != err {
 		ev.Broken("%s", err)
 	}
